@@ -29,7 +29,7 @@ def interior_P0(P):
 
 class LinearSource(Ob):
     name = 'linearSourceTerm/diagonal_beta'
-    props = ('C06', 'C04')
+    props = ('C06', 'C04', 'C02', 'C07')
 
     def setup(self, w):
         beta, _ = make_cellvar(w, 'beta', bc=False)
@@ -74,7 +74,7 @@ class ConstantSource(LinearSource):
 class TransientTerm(LinearSource):
     """transientTerm(phi_old, dt, alpha) = (diag(alpha_P/dt) on interior rows, alpha_P*phi_old_P/dt)"""
     name = 'transientTerm/backward_euler'
-    props = ('C12', 'C04')
+    props = ('C12', 'C04', 'C02', 'C07')
     alpha_kind = 'scalar'
 
     def setup(self, w):
